@@ -117,7 +117,7 @@ type c16Mut struct {
 }
 
 type c16ACase struct {
-	Target   string     `json:"target"` // loadfiles | load | expand | expandfile | extract | pull
+	Target   string     `json:"target"` // loadfiles | load | expand | expandfile | extract | pull | plugin-install
 	Plants   []c16Plant `json:"plants,omitempty"`
 	Entries  []c16Entry `json:"entries"`
 	NoEnd    bool       `json:"no_end,omitempty"`
@@ -126,7 +126,7 @@ type c16ACase struct {
 	Split    int        `json:"split,omitempty"`    // two gzip members, cut at this tar offset
 	Trailer  c16S       `json:"trailer,omitempty"`  // raw bytes after the gzip stream
 	Truncate int        `json:"truncate,omitempty"` // bytes dropped from the end of the tar stream
-	URLPath  string     `json:"url_path,omitempty"` // pull: path the archive is served at
+	URLPath  string     `json:"url_path,omitempty"` // pull, plugin-install: path the archive is served at
 	Untar    bool       `json:"untar,omitempty"`    // pull
 	UntarDir string     `json:"untar_dir,omitempty"`
 }
@@ -220,6 +220,33 @@ func c16PlainFileName(urlPath string) bool {
 	return seg != "" && seg != "." && seg != ".."
 }
 
+// c16Setenv sets (or, for "", unsets) environment variables and returns the function restoring the previous state.
+func c16Setenv(kv map[string]string) func() {
+	type old struct {
+		v  string
+		ok bool
+	}
+	prev := map[string]old{}
+	for k, v := range kv {
+		o, ok := os.LookupEnv(k)
+		prev[k] = old{o, ok}
+		if v == "" {
+			os.Unsetenv(k)
+		} else {
+			os.Setenv(k, v)
+		}
+	}
+	return func() {
+		for k, o := range prev {
+			if o.ok {
+				os.Setenv(k, o.v)
+			} else {
+				os.Unsetenv(k)
+			}
+		}
+	}
+}
+
 func c16Call(fn func() error) (err error) {
 	defer func() {
 		if r := recover(); r != nil {
@@ -245,6 +272,10 @@ func c16JudgeA(tb vt.TB, c *c16ACase) c16Verdict {
 	// planted destination layout
 	for _, p := range c.Plants {
 		if p.Path == "" || path.Clean(p.Path) != p.Path || strings.HasPrefix(p.Path, "/") || p.Path == ".." || strings.HasPrefix(p.Path, "../") {
+			continue
+		}
+		if c.Target == "plugin-install" && !strings.HasPrefix(p.Path, "data/plugins/") {
+			// cache/data homes and their plugins/ subdirectories are infrastructure chosen by the user (people do link them elsewhere)
 			continue
 		}
 		if c.Target == "pull" && p.Kind == "symlink" {
@@ -351,6 +382,25 @@ func c16JudgeA(tb vt.TB, c *c16ACase) c16Verdict {
 		allowed = append(allowed, "mid/dest")
 		sigCtx = "plugin-extract"
 		err = c16Call(func() error { return (&installer.TarGzExtractor{}).Extract(bytes.NewBuffer(gz), box.dest) })
+	case "plugin-install":
+		// HTTPInstaller: download, Extract into <cache home>/plugins/<key>, copy to <data home>/plugins/<name>; both homes live under dest
+		allowed = append(allowed, "mid/dest")
+		srv := c16Server()
+		c16SrvMu.Lock()
+		c16SrvBody = gz
+		c16SrvMu.Unlock()
+		restore := c16Setenv(map[string]string{
+			"TMPDIR": filepath.Join(box.root, "tmp"), "HELM_CACHE_HOME": filepath.Join(box.dest, "cache"),
+			"HELM_DATA_HOME": filepath.Join(box.dest, "data"), "HELM_CONFIG_HOME": filepath.Join(box.dest, "config"), "HELM_PLUGINS": "",
+		})
+		err = c16Call(func() error {
+			inst, e := installer.NewHTTPInstaller(srv.URL + c.URLPath)
+			if e != nil {
+				return e
+			}
+			return inst.Install()
+		})
+		restore()
 	case "pull":
 		allowed = append(allowed, "mid/dest")
 		sigCtx = "pull-untar"
@@ -388,6 +438,7 @@ func c16JudgeA(tb vt.TB, c *c16ACase) c16Verdict {
 	after := c16Snapshot(box.root, "mid/dest", "tmp", "home")
 	if err == nil {
 		lbl["call-ok"] = true
+		lbl["ok:"+c.Target] = true
 	} else {
 		lbl["call-failed"] = true
 	}
@@ -587,10 +638,38 @@ func c16GenEntries(t *rapid.T, style int, top string, max int) []c16Entry {
 	return es
 }
 
+// c16WithDirs inserts a directory member for every not yet announced ancestor of the members with an ordinary
+// name, the way real plugin tarballs are laid out (TarGzExtractor.Extract does not create parents on its own).
+func c16WithDirs(es []c16Entry) []c16Entry {
+	seen := map[string]bool{}
+	var out []c16Entry
+	for _, e := range es {
+		n := string(e.Name)
+		if c16NameProblem(strings.TrimSuffix(n, "/")) == "" && !strings.ContainsAny(n, "$:") {
+			parts := strings.Split(strings.TrimSuffix(n, "/"), "/")
+			for i := 1; i < len(parts); i++ {
+				d := strings.Join(parts[:i], "/")
+				if !seen[d] {
+					seen[d] = true
+					out = append(out, c16Entry{Name: c16S(d + "/"), Type: "5", Mode: 0o755})
+				}
+			}
+			if e.typeflag() == '5' {
+				if seen[strings.TrimSuffix(n, "/")] {
+					continue
+				}
+				seen[strings.TrimSuffix(n, "/")] = true
+			}
+		}
+		out = append(out, e)
+	}
+	return out
+}
+
 func c16GenA(t *rapid.T) *c16ACase {
 	c := &c16ACase{}
 	c.Target = rapid.SampledFrom([]string{"extract", "expand", "loadfiles", "pull", "load", "extract", "expand", "loadfiles", "pull", "extract", "expand",
-		"load", "extract", "expand", "expandfile", "loadfiles", "pull", "load"}).Draw(t, "target")
+		"load", "plugin-install", "extract", "expand", "expandfile", "loadfiles", "pull", "load", "plugin-install"}).Draw(t, "target")
 	style := []int{0, 0, 1, 1, 1, 1, 2, 2, 2, 1}[rapid.IntRange(0, 9).Draw(t, "style")]
 	chartName := "mychart"
 	if rapid.IntRange(0, 3).Draw(t, "oddChartName") == 0 {
@@ -656,6 +735,22 @@ func c16GenA(t *rapid.T) *c16ACase {
 	case 3:
 		c.Truncate = rapid.IntRange(1, 1500).Draw(t, "truncate")
 	}
+	if (c.Target == "extract" || c.Target == "plugin-install") && rapid.IntRange(0, 5).Draw(t, "withDirs") > 0 {
+		c.Entries = c16WithDirs(c.Entries)
+	}
+	if c.Target == "plugin-install" {
+		c.URLPath = rapid.SampledFrom([]string{"/plugins/myplugin-1.0.0.tgz", "/plugins/myplugin-1.0.0.tgz", "/plugins/myplugin.tar.gz", "/plugins/..tgz", "/plugins/...tgz", "/plugins/a%2f..%2f..tar.gz", "/.tgz"}).Draw(t, "pluginURL")
+		py := c16Entry{Name: "plugin.yaml", Type: "0", Body: "name: myplugin\nversion: 1.0.0\nusage: x\ncommand: $HELM_PLUGIN_DIR/x.sh\n"}
+		if rapid.IntRange(0, 4).Draw(t, "pluginYamlLast") == 0 {
+			c.Entries = append(c.Entries, py)
+		} else {
+			c.Entries = append([]c16Entry{py}, c.Entries...)
+		}
+		if rapid.IntRange(0, 2).Draw(t, "plantPluginDir") == 0 {
+			c.Plants = append(c.Plants, c16Plant{Path: rapid.SampledFrom([]string{"data/plugins/myplugin", "data/plugins/myplugin/bin", "data/plugins/myplugin/plugin.yaml"}).Draw(t, "pluginPlantAt"),
+				Kind: "symlink", Target: rapid.SampledFrom([]string{"$OUT", "$OUT/missing", "$OUT/canary", "$OUT/sub"}).Draw(t, "pluginPlantTo")})
+		}
+	}
 	if c.Target == "pull" {
 		c.URLPath = rapid.SampledFrom(c16URLs).Draw(t, "url")
 		c.Untar = rapid.IntRange(0, 3).Draw(t, "untar") > 0
@@ -677,7 +772,7 @@ func c16JSON(v interface{}) string {
 }
 
 func TestC16A(t *testing.T) {
-	evid.Extra("rule", "C16A: rapid-generated tar+gzip streams written with a raw header encoder (names from a hostile component/prefix grammar with mixed / and \\ separators, absolute and drive prefixes, '..', NUL, invalid UTF-8, long names in ustar-prefix/GNU-L/PAX encodings; regular, old-regular, dir, symlink, hard link, device, fifo, sparse, global-pax and unknown type flags; link names pointing at sandbox canaries; entries routed through an earlier link entry; nested charts/*.tgz; lying size fields; byte flips with optional checksum repair; split/truncated/trailing gzip framing) x destination layouts with planted symlinks/files/dirs, run through LoadArchiveFiles, LoadArchive, Expand, ExpandFile, TarGzExtractor.Extract and action.Pull (loopback HTTP, odd download names, untar). Oracle: snapshot (type, mode, link target, sha256, mtime) of the sandbox tree without following links before/after: nothing outside root/mid/dest may differ (also when the call fails; TMPDIR and the helm home of Pull are exempt) and /c16-abs-escape must not appear; every file name exposed by a loaded archive/chart (incl. subcharts) is non-empty, relative, path.Clean-stable, without '..' component, backslash or '<letter>:/' prefix. Non-trivial = the case contains a hostile name, a link entry, a planted symlink or an odd download name; distinct by the JSON of the case.")
+	evid.Extra("rule", "C16A: rapid-generated tar+gzip streams written with a raw header encoder (names from a hostile component/prefix grammar with mixed / and \\ separators, absolute and drive prefixes, '..', NUL, invalid UTF-8, long names in ustar-prefix/GNU-L/PAX encodings; regular, old-regular, dir, symlink, hard link, device, fifo, sparse, global-pax and unknown type flags; link names pointing at sandbox canaries; entries routed through an earlier link entry; nested charts/*.tgz; lying size fields; byte flips with optional checksum repair; split/truncated/trailing gzip framing) x destination layouts with planted symlinks/files/dirs, run through LoadArchiveFiles, LoadArchive, Expand, ExpandFile, TarGzExtractor.Extract, installer.HTTPInstaller.Install (loopback HTTP; cache and data home under the destination) and action.Pull (loopback HTTP, odd download names, untar). Oracle: snapshot (type, mode, link target, sha256, mtime) of the sandbox tree without following links before/after: nothing outside root/mid/dest may differ (also when the call fails; TMPDIR and the helm home of Pull are exempt) and /c16-abs-escape must not appear; every file name exposed by a loaded archive/chart (incl. subcharts) is non-empty, relative, path.Clean-stable, without '..' component, backslash or '<letter>:/' prefix. Non-trivial = the case contains a hostile name, a link entry, a planted symlink or an odd download name; distinct by the JSON of the case.")
 	evid.Extra("assumptions", []string{
 		"Linux path semantics only (a name like 'C:x' is an ordinary relative name here; noted, not judged)",
 		"reads that follow a link out of the destination are not observable by a snapshot; only creations/modifications/deletions are judged",
